@@ -351,6 +351,7 @@ func runC08(p *core.Prog, r *core.Report) {
 	// ---- R4
 	r.Guard("C08.R4", "deltas", "delta construction", func() { checkDeltaConstruction(p, r, "C08.R4") })
 
+	r.Guard("C08.R4", "in-place", "store values are never written in place", func() { checkNoInPlaceMutation(p, r, "C08.R4") })
 	r.Guard("C08.R5", "host-interface", "intrinsics forward their arguments", func() { checkHostArgs(p, r, "C08.R5") })
 	r.MinInstances("C08.R1", 5)
 	r.MinInstances("C08.R2", 30)
